@@ -119,8 +119,8 @@ def build_queue_ops(run, prop, E):
         return {"self": t, "q": t.attrs["_tx_queue"], "pre": snapshot(t), "m": SRef(dm.TxMsg, mid, msg_schema())}
     for f, name in ((fa, "append"), (fc, "clear")):
         for p, ctx, out in run_paths(E, setup, lambda E, ctx, f=f, name=name: E.call(f, [ctx["self"]] + ([ctx["m"]] if name == "append" else []))):
-            run.add(*path_obligations(run, prop, f, p, ""))
             tag = {"what": name}
+            run.add(*path_obligations(run, prop, f, p, "", tag=tag))
             if out[0] == "raise":
                 run.add(Obligation(prop, qualname(f), "never_raises", p.pc, z3.BoolVal(False), kind="noexc", note=exc_note(out[1]), case=out[1].cls.__name__, where=where(f), tag=tag))
                 continue
@@ -191,8 +191,8 @@ def build_recv(run, prop, E):
         return {"self": link}
     nmsg = 0
     for p, ctx, out in run_paths(E, setup, lambda E, ctx: E.call(f, [ctx["self"]])):
-        run.add(*path_obligations(run, prop, f, p, ""))
         tag = {"what": "recv_tx_msg"}
+        run.add(*path_obligations(run, prop, f, p, "", tag=tag))
         if out[0] == "raise":
             run.add(Obligation(prop, qualname(f), "never_raises", p.pc, z3.BoolVal(False), kind="noexc", note=exc_note(out[1]), case=out[1].cls.__name__, where=where(f), tag=tag))
             continue
@@ -233,8 +233,8 @@ def build_recv(run, prop, E):
         E.sheap["tn"] = z3.Array("msg.tn", I, I)
         return {"self": t, "q": t.attrs["_tx_queue"], "pre": snapshot(t)}
     for p, ctx, out in run_paths(E, setup2, lambda E, ctx: E.call(g, [ctx["self"]])):
-        run.add(*path_obligations(run, prop, g, p, ""))
         tag = {"what": "recv_data_msg"}
+        run.add(*path_obligations(run, prop, g, p, "", tag=tag))
         if out[0] == "raise":
             run.add(Obligation(prop, qualname(g), "never_raises", p.pc, z3.BoolVal(False), kind="noexc", note=exc_note(out[1]), case=out[1].cls.__name__, where=where(g), tag=tag))
             continue
@@ -828,4 +828,55 @@ def replay(payload):
         except Exception as e:
             return {"confirmed": True, "observed": "raises %s: %s" % (type(e).__name__, e), "expected": "no exception whatever the socket thread does",
                     "schedule": f.get("env")}
+    if what in ("append", "clear"):
+        bad = []
+        for n in range(4):
+            t = native_trx()
+            old = [dm.TxMsg(fn=10 + k, tn=k) for k in range(n)]
+            t._tx_queue.extend(old)
+            m = dm.TxMsg(fn=5, tn=1)
+            try:
+                t.tx_queue_append(m) if what == "append" else t.tx_queue_clear()
+            except Exception as e:
+                bad.append({"queued": n, "observed": "raises %s: %s" % (type(e).__name__, e)})
+                continue
+            got = list(t._tx_queue)
+            want = old + [m] if what == "append" else []
+            if len(got) != len(want) or any(a is not b for a, b in zip(got, want)) or t._tx_queue_lock.locked():
+                bad.append({"queued": n, "observed": [x.fn for x in got], "expected": [x.fn for x in want], "lock_held": t._tx_queue_lock.locked()})
+        return {"confirmed": bool(bad), "observed": bad or "as specified", "expected": "append at the end / queue emptied, lock released"}
+    if what in ("recv_tx_msg", "recv_data_msg"):
+        # datagrams of both header versions (real TxMsg.gen_msg output), damaged ones and noise against both negotiated versions
+        def mk(ver, fn, tn):
+            m = dm.TxMsg(fn=fn, tn=tn, ver=ver)
+            m.pwr, m.burst = 3, bytearray([k % 2 for k in range(148)])
+            return m.gen_msg()
+        grams = [(mk(v, fn, tn), v, fn, tn) for v in (0, 1) for fn, tn in ((0, 0), (2715647, 7), (1234, 3))]
+        grams += [(b"", None, 0, 0), (b"\x00", None, 0, 0), (mk(0, 7, 1)[:5], None, 0, 0), (bytes([0x20]) + mk(0, 7, 1)[1:], None, 0, 0)]
+        bad = []
+        for hv in (0, 1):
+            for running in ((True, False) if what == "recv_data_msg" else (True,)):
+                for data, ver, fn, tn in grams:
+                    t = native_trx()
+                    t.data_if._hdr_ver, t.running = hv, running
+                    t.data_if.sock.inbox.append((data, ("127.0.0.1", 5802)))
+                    old = [dm.TxMsg(fn=99, tn=0)]
+                    t._tx_queue.extend(old)
+                    try:
+                        r = t.data_if.recv_tx_msg() if what == "recv_tx_msg" else t.recv_data_msg()
+                    except Exception as e:
+                        bad.append({"datagram": data.hex()[:40], "negotiated": hv, "observed": "raises %s: %s" % (type(e).__name__, e)})
+                        continue
+                    want = ver is not None and ver == hv and (running or what == "recv_tx_msg")
+                    ok = (r is not None and r is not False) == want
+                    if ok and want:
+                        ok = isinstance(r, dm.TxMsg) and (r.fn, r.tn, r.ver) == (fn, tn, ver)
+                    if ok and what == "recv_data_msg":
+                        q = list(t._tx_queue)
+                        ok = (q[:1] == old and len(q) == (2 if want else 1) and (not want or q[1] is r))
+                    if not ok:
+                        bad.append({"datagram": data.hex()[:40], "datagram_version": ver, "negotiated": hv, "running": running,
+                                    "observed": None if r is None else repr(r)[:80], "queue": [x.fn for x in t._tx_queue],
+                                    "expected": "message (fn %d tn %d) accepted%s" % (fn, tn, " and queued at the end" if what == "recv_data_msg" else "") if want else "dropped, queue unchanged"})
+        return {"confirmed": bool(bad), "observed": bad[:4] or "as specified", "expected": "accepted iff well-formed, negotiated version and powered on"}
     return {"confirmed": False, "error": "no native replay for %r" % what}
